@@ -107,6 +107,15 @@ pub fn install_router(
         let idx = net2.lock().unwrap().len();
         let response = respond(dial, idx);
         let tunnel = dial.proxy.is_some() && dial.url.starts_with("https:");
+        // the client offers a bracketed IPv6 literal as SNI, which a conforming TLS server refuses: tunnels to IPv6-literal origins
+        // are refused by this proxy, and checked up to the refusal
+        let v6_origin = url::Url::parse(&dial.url).map(|u| matches!(u.host(), Some(url::Host::Ipv6(_)))).unwrap_or(false);
+        if tunnel && v6_origin {
+            let reply = b"HTTP/1.1 403 Forbidden\r\nContent-Length: 0\r\n\r\n".to_vec();
+            let (t, log) = TunnelPeer::new(vec![Ev::Data(reply), Ev::Eof], usize::MAX, false, cert, vec![]);
+            net2.lock().unwrap().push((dial.clone(), PeerLog::Tunnel(log)));
+            return Ok(Box::new(t) as Box<dyn Transport>);
+        }
         if tunnel {
             let reply = b"HTTP/1.1 200 Connection established\r\n\r\n".to_vec();
             let head_len = reply.len();
@@ -277,7 +286,7 @@ non-trivial = a proxy is involved or the URL has >= 2 of {explicit port, IPv6, f
             "for an https connect URL (direct https or https proxy) the injected transport stands for the decrypted channel; TLS to that peer is exercised by C14 over real sockets".into(),
             "tunnelled requests set danger_accept_invalid_certs(true): certificate checking is C12/C14's subject".into(),
             "for plain http through a proxy only 'exactly one Host field' is asserted (the code documents that it names the proxy)".into(),
-            "https URLs with an IPv6-literal host through a proxy are not generated: the client offers the bracketed literal as SNI, which a conforming TLS server refuses (noted in DESIGN.md, outside this property)".into(),
+            "https URLs with an IPv6-literal host through a proxy are checked up to the CONNECT request (dial, CONNECT target) against a proxy that refuses the tunnel: the client offers the bracketed literal as SNI, which a conforming TLS server refuses (noted in DESIGN.md, outside this property)".into(),
         ]
     }
 
@@ -328,9 +337,6 @@ non-trivial = a proxy is involved or the URL has >= 2 of {explicit port, IPv6, f
                                                     if *pk == 0 && (pc.is_some() || *ph != phosts[0] || *pp != pports[0]) {
                                                         continue;
                                                     }
-                                                    if https && *pk != 0 && matches!(h, HostSpec::V6(_)) {
-                                                        continue;
-                                                    }
                                                     // the other scheme's default port is an ordinary explicit port; this scheme's is the explicit-default case
                                                     let p = &match *p {
                                                         PortSpec::Other(x) if x == if https { 443 } else { 80 } => continue,
@@ -375,11 +381,10 @@ non-trivial = a proxy is involved or the URL has >= 2 of {explicit port, IPv6, f
                     }
                     u
                 });
-                if url.https && https_proxy.is_some() {
-                    if let HostSpec::V6(_) = url.host {
-                        url.host = HostSpec::Domain(vec!["v6-excluded".into(), "test".into()]);
-                    }
-                }
+                // a tunnel to an IPv6-literal origin is checked up to the proxy's refusal (see install_router): one send, no redirect
+                let v6_tunnel = url.https && https_proxy.is_some() && matches!(url.host, HostSpec::V6(_));
+                let (redirect_to, send_twice) = if v6_tunnel { (None, false) } else { (redirect_to, send_twice) };
+                let _ = &mut url;
                 Case { url, http_proxy, https_proxy, redirect_to, caller_host, send_twice }
             })
             .boxed()
@@ -425,6 +430,31 @@ non-trivial = a proxy is involved or the URL has >= 2 of {explicit port, IPv6, f
             (true, true) => "route:tunnel",
         };
         ctx.label(route);
+        if case.url.https && proxy.is_some() && matches!(case.url.host, HostSpec::V6(_)) {
+            ctx.label("tunnel-to-ipv6-origin(refused by the proxy)");
+            ctx.nontrivial = true;
+            match &res {
+                Err(e) if matches!(e.kind(), attohttpc::ErrorKind::ConnectError { status_code, .. } if status_code.as_u16() == 403) => {}
+                other => return Outcome::fail("C08:refusal-not-reported:Tunnel", format!("the proxy refused the tunnel with 403; send() returned {:?}", other.as_ref().map(|r| r.status()))),
+            }
+            if exs.len() != 1 {
+                return Outcome::fail("C08:dials", format!("{} connections, expected 1", exs.len()));
+            }
+            let p = proxy.unwrap().as_url_spec();
+            let ex = &exs[0];
+            if ex.dial.host.to_ascii_lowercase() != p.host_text() || ex.dial.port != p.effective_port() {
+                return Outcome::fail("C08:dial:Tunnel", format!("connected to {}:{}, the proxy is {}", ex.dial.host, ex.dial.port, proxy.unwrap().render()));
+            }
+            let c = match parse_single(&ex.clear) {
+                Ok(c) => c,
+                Err(e) => return Outcome::fail("C08:connect-malformed:Tunnel", format!("{e}: {:?}", String::from_utf8_lossy(&ex.clear))),
+            };
+            let want = format!("{}:{}", case.url.host_text(), case.url.effective_port());
+            if c.method != "CONNECT" || c.target.to_ascii_lowercase() != want {
+                return Outcome::fail("C08:connect-target:Tunnel", format!("CONNECT line {} {:?}, expected CONNECT {want}", c.method, c.target));
+            }
+            return Outcome::Pass;
+        }
         if let Err(e) = &res {
             let t = exs.first().and_then(|e| e.tls_error.clone());
             return Outcome::fail(format!("C08:send-failed:{route}"), format!("{e:?} (url {url}, proxy {:?}, tunnel tls error {t:?})", proxy.map(|p| p.render())));
